@@ -240,7 +240,7 @@ int main(int argc, char **argv) {
         {.name = "S4-future-cancel-release", .run = s4, .bound_quick = 3, .bound_thorough = 5, .digest = user_digest},
         {.name = "S5-two-clients", .run = s5, .bound_quick = 2, .bound_thorough = 3, .digest = user_digest},
         {.name = "S6-timed-run", .run = s6, .bound_quick = 3, .bound_thorough = 4, .digest = user_digest},
-        {.name = "S7-three-clients", .run = s7, .bound_quick = -1, .bound_thorough = 2, .digest = user_digest},
+        {.name = "S7-three-clients", .run = s7, .bound_quick = -1, .bound_thorough = 1, .digest = user_digest},
     };
     return vsx_main(sc, (int)(sizeof(sc) / sizeof(sc[0])));
 }
